@@ -34,17 +34,18 @@ Theorem C05_resb : forall E s n, 0 <= n < 2 ^ 31 ->
 Proof. exact resb_stmt. Qed.
 Print Assumptions C05_resb.
 
-(** ALIGNB: fewest zero bytes to the next multiple of n (domain: origin a multiple of n;
-    outside it gosk pads by output length instead of address - known finding C05-alignb-org). *)
-Theorem C05_alignb : forall E s n len,
+(** ALIGNB: fewest zero bytes to the next multiple of n, at EVERY origin: the only hypothesis relating pass 1 and
+    codegen is the LOC invariant loc = origin + bytes emitted so far (C03).  Before fix 9af2c29 in /repo this needed
+    the origin to be a multiple of n (gosk padded by output length instead of address). *)
+Theorem C05_alignb : forall E s n dol len,
   0 < n < 2 ^ 31 -> Z.land n (n - 1) = 0 -> 0 <= len -> 0 <= loc s -> loc s + n < 2 ^ 31 ->
-  (loc s - len) mod n = 0 ->
+  loc s = dol + len ->
   let s' := do_alignb s [ENum n] in
   let pad := (n - loc s mod n) mod n in
   is_min_pad (loc s) n pad
   /\ ocodes s' = OAlignb n :: ocodes s
   /\ loc s' = loc s + pad
-  /\ (forall m st dol, gen_ocode E m st dol len (OAlignb n) = Bytes (repeat 0 (Z.to_nat pad))).
+  /\ (forall m st, gen_ocode E m st dol len (OAlignb n) = Bytes (repeat 0 (Z.to_nat pad))).
 Proof. exact alignb_stmt. Qed.
 Print Assumptions C05_alignb.
 
@@ -60,9 +61,7 @@ Example C05_db_example :
   /\ spec_data 1 [DNum (-1); DStr [104; 105]; DAddr 31744; DNum 300] = [255; 104; 105; 0; 44].
 Proof. split; reflexivity. Qed.
 
-(** the ALIGNB statement is false without the origin hypothesis: LOC = 0x101+1, 2 bytes emitted *)
-Theorem C05_alignb_refuted_unaligned_origin :
-  exists (loc0 len n : Z),
-    (n - loc0 mod n) mod n <> (n - len mod n) mod n /\ (loc0 - len) mod n <> 0.
-Proof. exists 258, 1, 4. split; vm_compute; congruence. Qed.
-Print Assumptions C05_alignb_refuted_unaligned_origin.
+(** the former counter-example (ORG 0x101 / DB 1 / ALIGNB 4: LOC = 0x102, one byte emitted) now pads to the boundary *)
+Example C05_alignb_unaligned_origin : forall E m st,
+  gen_ocode E m st 257 1 (OAlignb 4) = Bytes [0; 0] /\ (257 + 1 + 2) mod 4 = 0.
+Proof. intros. split; reflexivity. Qed.
